@@ -663,7 +663,9 @@ impl Structure {
         }
         v
     }
-    fn decode(&self, mut id: u64) -> (usize, usize, u64) {
+    fn decode(&self, id: u64) -> (usize, usize, u64) {
+        let half: u64 = self.shapes().iter().map(|(m, n)| 1u64 << (m * n)).sum();
+        let mut id = id % half;
         for (m, n) in self.shapes() {
             let c = 1u64 << (m * n);
             if id < c {
@@ -673,17 +675,22 @@ impl Structure {
         }
         unreachable!()
     }
+    /// second half of the space: the same encodings with the entries of every column stored in descending row order
+    fn reversed(&self, id: u64) -> bool {
+        let half: u64 = self.shapes().iter().map(|(m, n)| 1u64 << (m * n)).sum();
+        id >= half
+    }
 }
 impl Space for Structure {
     fn name(&self) -> String {
         format!("structure-dims<={}", self.maxdim)
     }
     fn size(&self) -> u64 {
-        self.shapes().iter().map(|(m, n)| 1u64 << (m * n)).sum()
+        2 * self.shapes().iter().map(|(m, n)| 1u64 << (m * n)).sum::<u64>()
     }
     fn describe(&self, id: u64) -> Value {
         let (m, n, pat) = self.decode(id);
-        json!({"m":m,"n":n,"pattern_bits":pat,"values":"entry (i,j) = 1 offdiag, 4+i on the diagonal"})
+        json!({"m":m,"n":n,"pattern_bits":pat,"values":"entry (i,j) = 1 offdiag, 4+i on the diagonal", "rows_within_columns": if self.reversed(id) { "descending (unsorted encoding)" } else { "ascending" }})
     }
     fn bound(&self) -> Value {
         json!({"shapes": format!("1..={0} x 1..={0}", self.maxdim), "patterns":"all"})
@@ -699,7 +706,15 @@ impl Space for Structure {
                 }
             }
         }
-        let csc = a.to_csc();
+        let mut csc = a.to_csc();
+        let reversed = self.reversed(id);
+        if reversed {
+            for j in 0..n {
+                let (lo, hi) = (csc.colptr[j], csc.colptr[j + 1]);
+                csc.rowval[lo..hi].reverse();
+                csc.nzval[lo..hi].reverse();
+            }
+        }
         let nonsquare = m != n;
         let below = (0..m).any(|i| (0..n).any(|j| i > j && has(i, j)));
         let emptycol = (0..n).any(|j| (0..m).all(|i| !has(i, j)));
@@ -738,6 +753,11 @@ impl Space for Structure {
                     let (z, dy) = exact_zero_pivot(&sym);
                     ensure!(z.is_some() || !dy, "spurious-zero-pivot-error", "{:?}", sym.rows());
                     ctx.outcome("err-zero-pivot");
+                    Ok(())
+                }
+                Err(_) if reversed => {
+                    // an unsorted encoding may be refused; it must only never be factored wrongly
+                    ctx.outcome("unsorted-encoding-refused");
                     Ok(())
                 }
                 Err(e) => Err(Violation::new("unexpected-error-on-valid-input", format!("{:?} for {:?}", e, sym.rows()))),
